@@ -60,9 +60,12 @@ pub struct Plan {
 
 impl Plan {
     pub fn total_bases(&self, ncorpus: u64) -> u64 {
-        self.generated_bases + if self.corpus { ncorpus } else { 0 }
+        self.generated_bases + if self.corpus { ncorpus + GIANT_BASES } else { 0 }
     }
 }
+
+/// structural giants appended after the corpus bases (see giants.rs)
+pub const GIANT_BASES: u64 = 7;
 
 pub const MEM_FIXED: u64 = 64 * 1024 * 1024;
 pub const MEM_PER_BYTE: u64 = 8192;
@@ -77,6 +80,23 @@ pub fn inputs_of_base(plan: &Plan, b: u64, corpus: &[(String, Vec<u8>)]) -> Vec<
     let thorough = plan.tier == Tier::Thorough;
     let base: Base = if b < plan.generated_bases {
         hostile::generated_base(plan.seed, b)
+    } else if b >= plan.generated_bases + corpus.len() as u64 {
+        // structural giants: unmodified, plus a little random damage (field enumeration would be millions of inputs)
+        let files = crate::giants::giant_files();
+        let k = (b - plan.generated_bases - corpus.len() as u64) as usize;
+        let (name, bytes) = match files.get(k) {
+            Some(f) => f.clone(),
+            None => return vec![],
+        };
+        let mut out = vec![Input { operator: "wellformed:giant".into(), label: format!("{}: unmodified ({} bytes)", name, bytes.len()), bytes: bytes.clone() }];
+        if let Some(gb) = hostile::corpus_base(&name, bytes) {
+            out.extend(hostile::multi_field_inputs(&gb, &mut rng, 24));
+            if plan.mode != Mode::Mem {
+                out.extend(hostile::unstructured_inputs(&gb, &mut rng, 24));
+            }
+        }
+        out.retain(|i| i.bytes.len() <= 4 * 1024 * 1024);
+        return out;
     } else {
         let (name, bytes) = &corpus[(b - plan.generated_bases) as usize];
         if bytes.len() > plan.size_cap {
